@@ -297,6 +297,8 @@ def sym_getitem(interp, obj, idx):
     gi = _find_in_mro(type(obj), '__getitem__')
     if gi is not None and interp.is_repo_function(gi):
         return interp.call(gi, (obj, idx), {})
+    if type(obj).__module__.split('.')[0] in ('contracts', 'spec', 'pyvc'):
+        return obj[idx]
     raise Unsupported(f"subscript of {type(obj).__name__} with symbolic index")
 
 
@@ -320,6 +322,9 @@ def sym_setitem(interp, obj, idx, v):
     si = _find_in_mro(type(obj), '__setitem__')
     if si is not None and interp.is_repo_function(si):
         interp.call(si, (obj, idx, v), {})
+        return
+    if type(obj).__module__.split('.')[0] in ('contracts', 'spec', 'pyvc'):
+        obj[idx] = v              # ghost objects of the contract packs handle symbolic keys themselves
         return
     raise Unsupported(f"store into {type(obj).__name__} with symbolic index")
 
